@@ -22,6 +22,11 @@ HOSTILE = ['a"b', 'x"', 'a\\b', 'x\\', '\\"', 'a"; discard; #', '"]; stop; #'[1:
            'a\nb', 'a\r\nb', 'a" , "b', 'q"] ["z', "a'b", ""]
 
 
+# first elements of a condition / action tuple that the factory reads as its own keywords
+KEYWORDS = {"true", "false", "exists", "notexists", "size", "envelope", "address", "body",
+            "currentdate", "header", "not", "anyof", "allof", "hasflag"}
+
+
 class Values:
     """kind: 'benign' | 'soft' (commas, brackets, spaces, non-ASCII) | 'hostile'
     (quotes, backslashes, newlines; never *starting* with a quote character)."""
@@ -43,11 +48,28 @@ class Values:
             out += r.choice(pool) + r.choice([" ", "\n", "-"])
         return out[:n - 1] + "z"
 
+    def wild(self):
+        """text drawn from broad character classes (rv/textgen.py) instead of a pool"""
+        from . import textgen
+        ex = ["nul", "line-break"]
+        if self.kind != "hostile":
+            ex.append("dquote-backslash")
+        t = textgen.text(self.rng, 1, 8, exclude=ex, first_not=('"', "'", ":"))
+        if self.kind != "hostile":
+            t = t.replace('"', "").replace("\\", "") or "w"
+            if t[0] in "\"':":
+                t = "w" + t
+        if t in KEYWORDS or t.lower() in KEYWORDS:
+            t = "w" + t
+        return t
+
     def s(self):
         r = self.rng
         p = r.random()
         if p > 0.985:
             return self.long()
+        if p > 0.93 and self.kind != "benign":
+            return self.wild()
         if self.kind == "hostile" and p < 0.5:
             return r.choice(HOSTILE)
         if self.kind in ("soft", "hostile") and p < 0.8:
